@@ -95,6 +95,137 @@ def links_word(links):
     return ",".join("-" if l is None else str(l) for l in links)
 
 
+# ---- share references: every verb that names a source / destination share with a field list
+SHARE_PATHS = [".pose.start", ".pose.goal", ".nav.fix", ".a.b", ".a.c"]
+SHARE_FIELDS = ["north", "east", "depth", "x", "y"]
+SHARE_VALUES = ["1", "2.5", "-3", "True", '"s"', "0x10", "None"]
+LOG_RULES = ["once", "never", "always", "update", "change", "streak", "deck"]
+
+
+class ShareGen(object):
+    """Scripts about shares and their fields.  A few shares are created with known fields (`init … with`); then every
+    verb that takes a share reference with an optional field list — init … from, server … for, loggee, put, copy, set,
+    inc, do … from/for/qua/with/per/cum, bid … at, go/let … if — is given references to a share that exists with the
+    named field, exists WITHOUT it, exists with more fields, holds a single `value`, or does not exist at all; with and
+    without the `fields in` clause on either side."""
+
+    def __init__(self, rng):
+        self.r = rng
+        self.have = {}                     # path -> list of fields created so far
+
+    def direct(self, fields=None):
+        r = self.r
+        if fields is None:
+            fields = r.choice([[], r.sample(SHARE_FIELDS, r.randrange(1, 3)), r.sample(SHARE_FIELDS, 1), ["value"]])
+        if not fields:
+            return [r.choice(SHARE_VALUES)]
+        out = []
+        for f in fields:
+            out += [f, r.choice(SHARE_VALUES)]
+        return out
+
+    def ref(self, one=False, relative=False):
+        """([fields in] path) tokens"""
+        r = self.r
+        k = r.random()
+        known = list(self.have)
+        if known and k < 0.85:
+            path = r.choice(known)
+        elif k < 0.95:
+            path = r.choice(SHARE_PATHS)
+        else:
+            path = r.choice([".nowhere.n", ".pose", ".a", ".pose.start.deep"])   # missing, a node, below a share
+        has = self.have.get(path, [])
+        k = r.random()
+        lacks = [f for f in SHARE_FIELDS if f not in has] or ["zz"]
+        if k < 0.3:
+            fields = []
+        elif k < 0.65 and has:
+            fields = r.sample(has, r.randrange(1, len(has) + 1))
+        elif k < 0.83:
+            fields = [r.choice(lacks)]                                # a field it lacks
+        elif k < 0.95 and has:
+            fields = [r.choice(has), r.choice(lacks)]                 # one it has, one it lacks
+            r.shuffle(fields)
+        else:
+            fields = ["value"]
+        if one:
+            fields = fields[:1]
+        toks = (fields + ["in"] if fields else []) + [path]
+        if relative and r.random() < 0.2:
+            toks = (fields + ["in"] if fields else []) + [path.lstrip(".").replace(".", "_")] + \
+                r.choice([["of", "me"], ["of", "framer"], ["of", "frame"], ["of", "framer", "f"], ["of", "frame", "a"]])
+        return toks
+
+    def house_lines(self):
+        r = self.r
+        out = []
+        for path in r.sample(SHARE_PATHS, r.randrange(1, 4)):
+            fields = r.choice([r.sample(SHARE_FIELDS, r.randrange(1, 4)), r.sample(SHARE_FIELDS, r.randrange(2, 4)),
+                               r.sample(SHARE_FIELDS, 1), ["value"], []])
+            out.append(["init", path, "with"] + self.direct(fields))
+            self.have[path] = fields or ["value"]
+        for _ in range(r.randrange(0, 3)):
+            out.append(["init"] + self.ref() + ["from"] + self.ref())
+        if r.random() < 0.35:
+            c = ["server", "s"]
+            parts = [["for"] + self.ref(), ["per"] + self.direct()] if r.random() < 0.5 else [["for"] + self.ref()]
+            r.shuffle(parts)
+            out.append(c + [t for part in parts for t in part])
+        if r.random() < 0.35:
+            out.append(["logger", "l", "to", "/dev/shm/verif-log"])
+            for i in range(r.randrange(1, 3)):
+                out.append(["log", "g%d" % i, "on", r.choice(LOG_RULES)])
+                c = ["loggee"]
+                for _ in range(r.randrange(1, 3)):
+                    c += self.ref() + (["as", r.choice(["t", "u", "t"])] if r.random() < 0.4 else [])
+                out.append(c)
+        return out
+
+    def frame_lines(self):
+        r = self.r
+        out = []
+        for _ in range(r.randrange(2, 6)):
+            k = r.randrange(9)
+            if k == 0:
+                out.append(["put"] + self.direct() + ["into"] + self.ref(relative=True))
+            elif k == 1:
+                out.append(["copy"] + self.ref(relative=True) + ["into"] + self.ref(relative=True))
+            elif k == 2:
+                out.append(["set"] + self.ref(relative=True) + (["with"] + self.direct() if r.random() < 0.5 else ["from"] + self.ref(relative=True)))
+            elif k == 3:
+                out.append(["inc"] + self.ref(one=r.random() < 0.7, relative=True) +
+                           (["with"] + self.direct() if r.random() < 0.5 else ["from"] + self.ref(one=r.random() < 0.7, relative=True)))
+            elif k == 4:
+                parts = []
+                for w in r.sample(["from", "for", "qua", "with", "per", "cum", "via"], r.randrange(1, 4)):
+                    parts.append([w] + (self.ref(relative=True) if w in ("from", "for", "qua") else
+                                        [r.choice([".pose.", ".a.", "me"])] if w == "via" else self.direct()))
+                out.append(["do", "doer"] + [t for part in parts for t in part])
+            elif k == 5:
+                out.append(["bid", r.choice(["start", "stop", "run"]), "me", "at"] + self.ref(one=True, relative=True))
+            elif k == 6:
+                out.append(r.choice([["go", "next"], ["go", "me"], ["let", "me"]]) + ["if"] + self.ref(one=True, relative=True) +
+                           [r.choice([">=", "==", "<", "!="]), r.choice(SHARE_VALUES)])
+            elif k == 7:
+                out.append(["go", "next", "if"] + self.ref(one=True, relative=True)[-1:] + ["is", r.choice(["updated", "changed"])])
+            else:
+                out.append(["go", "next", "if"] + self.ref(one=True, relative=True) + [r.choice([">=", "=="]), "goal"])
+        return out
+
+    def program(self):
+        r = self.r
+        prog = [["house", "h"]] + self.house_lines()
+        prog += [["framer", "f", "be", "active", "first", "a"], ["frame", "a"]] + self.frame_lines()
+        if r.random() < 0.5:
+            prog += [["frame", "b"]] + self.frame_lines()
+        prog += [["frame", "z"]]                 # so that `next` resolves in the frames above
+        if r.random() < 0.3:                     # a share defined after its use
+            path = r.choice(SHARE_PATHS)
+            prog.insert(r.randrange(1, len(prog)), ["init", path, "with"] + self.direct())
+        return prog
+
+
 class CHECK(core.Check):
     PROPERTY = "C14"
     LEAN_MODULES = ["IofloModel.Props.C14"]
@@ -108,7 +239,10 @@ class CHECK(core.Check):
             "as a script built by the real Builder under a 2 s limit; (b) scripts: generated runnable programs and the "
             "shipped example plans with 1-3 random token/line mutations (delete, insert, replace from a pool of reserved "
             "words, verbs, option words, odd numbers such as 1j/inf/nan/1e400, broken paths; duplicate, delete, move a "
-            "line), built under a 6 s limit. Non-trivial = a script that is rejected or does not build normally "
+            "line), built under a 6 s limit; (c) share-reference scripts (35% of the scripts): shares created with known fields, then "
+            "init-from / server-for / loggee / put / copy / set / inc / do from,for,qua,with,per,cum / bid-at / go,let-if given "
+            "references to a share that has the named field, lacks it, has more, holds `value`, is a node, or does not exist, "
+            "with and without the `fields in` clause on either side, absolute and relative. Non-trivial = a script that is rejected or does not build normally "
             "(any outcome other than 'ok'), or a link structure with at least one link; distinct by text.")
     TRUSTED = ["correspondence (a): the scripts really exercise the loops the model describes (frames resolved in definition "
                "order; `under` sets the primary under; a clone has the moots of its original)",
@@ -122,8 +256,8 @@ class CHECK(core.Check):
                "C14_clone_worklist_counterexample (D5: a moot framer cloning itself, directly or through others — the build "
                "never returned): repaired by fixes/D05-moot-clone-loop.patch (C14_repaired_clone_worklist_terminates, "
                "C14_repaired_clone_worklist_conservative)",
-               "internal errors that remain reachable are listed in Model/Worklist.lean `knownCrashSites` (D67: Store.add's "
-               "bare ValueError for a share path that collides with an existing share or node)"]
+               "internal errors known to remain reachable would be listed in Model/Worklist.lean `knownCrashSites`: the table "
+               "is empty (D5, D8, D65-D69b are repaired), so every internal error the search meets is a failing input"]
     TECHNIQUE = ("Lean 4 theorems (rank / closed-set arguments for the loops, pigeonhole for the repaired loops; decide +kernel "
                  "over the table generated from the source) + differential correspondence on link structures + mutation fuzzing "
                  "of scripts against the stated outcome classes")
@@ -197,8 +331,14 @@ class CHECK(core.Check):
                 yield {"kind": "clones", "table": table}
         plans = [fb.dispatched(t) for name, t in fb.example_plans() if "load" not in t]
         for i in range(n - n_links):
-            prog = [list(c) for c in (rng.choice(plans) if rng.random() < 0.3 else fb.gen_program(rng))]
-            for _ in range(rng.randrange(1, 4)):
+            k = rng.random()
+            if k < 0.35:
+                prog = ShareGen(rng).program()
+                n_mut = rng.choice([0, 0, 1])
+            else:
+                prog = [list(c) for c in (rng.choice(plans) if k < 0.55 else fb.gen_program(rng))]
+                n_mut = rng.randrange(1, 4)
+            for _ in range(n_mut):
                 ci = rng.randrange(len(prog))
                 c = prog[ci]
                 op = rng.randrange(6)
